@@ -490,7 +490,7 @@ std::string op_RS(std::vector<std::string> const &t)
 }
 
 // ---------------------------------------------------------------- container scripts
-// XU <c|m> <seed> <elems|-> <act>+    acts: f:i  k:i:lo:hi  cc:i:j  ca:i:j  mc:i:j  ma:i:j  d:i:n  w:pos:x  t:i:x
+// XU <c|m> <seed> <elems|-> <act>+    acts: f:i  k:i:lo:hi  cc:i:j  ca:i:j  mc:i:j  ma:i:j  d:i:n  w:pos:x  t:i:x  g:n
 template <typename Cont>
 std::string run_cscript(std::vector<std::string> const &t)
 {
@@ -582,6 +582,15 @@ std::string run_cscript(std::vector<std::string> const &t)
       if (pos >= storage.size())
         throw bad_op{};
       storage[pos] = parse_base<typename plain::value_type>(f[2]);
+    }
+    else if (name == "g")
+    {
+      fields(2U);
+      std::size_t const n{count_field(f[1])};
+      std::vector<std::string> seq;
+      for (std::size_t k = 0; k < n; ++k)
+        seq.push_back(std::to_string(gen()));
+      out += " g=" + join_str(seq);
     }
     else if (name == "t")
     {
